@@ -224,10 +224,15 @@ def load_known():
         return json.load(f).get("findings", [])
 
 
+CURRENT = None   # the Check of this process (so the entry point can report violations found before tool trouble)
+
+
 class Check:
     """Bookkeeping for one check run."""
 
     def __init__(self, prop, tier, level="model_checking"):
+        global CURRENT
+        CURRENT = self
         ensure_dirs()
         self.prop = prop
         self.tier = tier
